@@ -160,6 +160,21 @@ func startPoller(db fs_db.DB, key string, allowed [][]byte, allowMissing bool) *
 
 func (p *poller) finish() *string { p.stop.Store(true); p.wg.Wait(); return p.bad.Load() }
 
+// c10Source returns a reader over src. Every other time it is a seekable reader over a longer
+// buffer that stands after a 16-byte header which the caller has consumed already: the value to
+// store is the stream from the reader's current position, not the underlying buffer from offset 0.
+var c10SourceN int
+
+func c10Source(src []byte) io.Reader {
+	c10SourceN++
+	if c10SourceN%2 == 0 {
+		return bytes.NewReader(src)
+	}
+	r := bytes.NewReader(append([]byte("HEADER-16-BYTES!"), src...))
+	r.Seek(16, io.SeekStart)
+	return r
+}
+
 // doWrite performs the write through the chosen API with the given source.
 func doWrite(db fs_db.Store, ctx context.Context, api, key string, src io.Reader, whole []byte) error {
 	switch api {
@@ -471,7 +486,7 @@ func c10NoSpace(tier string, seed int64, idx int, scratch string) rt.CaseResult 
 					}
 					allowed = append(allowed, src)
 					pl := startPoller(env.DB, key, allowed, !hadPrev)
-					werr := doWrite(env.DB, ctxBg, api, key, bytes.NewReader(src), src)
+					werr := doWrite(env.DB, ctxBg, api, key, c10Source(src), src)
 					bad := pl.finish()
 					verif.SetWriteFault(nil)
 					mu.Lock()
@@ -665,7 +680,7 @@ func c10Tmpfs(tier string, seed int64, idx int, scratch string) rt.CaseResult {
 			prev, gerr := env.DB.Get(ctxBg, key)
 			hadPrev := gerr == nil
 			src := seqrun.Content(fmt.Sprintf("c%d-%d-%s", idx, n, api), l)
-			werr := doWrite(env.DB, ctxBg, api, key, bytes.NewReader(src), src)
+			werr := doWrite(env.DB, ctxBg, api, key, c10Source(src), src)
 			plan := map[string]any{"mode": "inline", "api": api, "fault": "real-tmpfs-enospc", "len": l, "second_root_with_more_space": second, "had_previous": hadPrev, "seed": seed}
 			var want *bool
 			yes := true
@@ -976,7 +991,7 @@ func c10WriteErr(tier string, seed int64, idx int, scratch string) rt.CaseResult
 				}
 				allowed = append(allowed, src)
 				pl := startPoller(env.DB, key, allowed, !hadPrev)
-				werr := doWrite(env.DB, ctxBg, api, key, bytes.NewReader(src), src)
+				werr := doWrite(env.DB, ctxBg, api, key, c10Source(src), src)
 				bad := pl.finish()
 				verif.SetWriteFault(nil)
 				mu.Lock()
@@ -1094,7 +1109,7 @@ func c10MetaFault(tier string, seed int64, idx int, scratch string) rt.CaseResul
 				if api == "delete" {
 					werr = env.DB.Delete(ctxBg, key)
 				} else {
-					werr = doWrite(env.DB, ctxBg, api, key, bytes.NewReader(src), src)
+					werr = doWrite(env.DB, ctxBg, api, key, c10Source(src), src)
 				}
 				verif.SetOpFault(nil)
 				bad := pl.finish()
